@@ -42,10 +42,16 @@ def with_alarm(fn, secs=5.0):
         signal.signal(signal.SIGALRM, old)
 
 
+HANGS = [0]
+
+
 def build(lon, lat, z=None, m=None, bounded=True):
     try:
-        return ('Ok', with_alarm(lambda: Coordinate(lon, lat, z, m, bounded)))
+        # after a few time-outs the remaining calls get a short leash (a broken loop would
+        # otherwise cost 5 s per input)
+        return ('Ok', with_alarm(lambda: Coordinate(lon, lat, z, m, bounded), 5.0 if HANGS[0] < 3 else 0.25))
     except Hang:
+        HANGS[0] += 1
         return ('Hang', None)
     except Exception as ex:   # noqa
         return ('Err', type(ex).__name__)
